@@ -218,11 +218,34 @@ func runC17(env *Env, rc *RunCtx) {
 	h := fnv64(before, 0)
 	for i := 0; i < nReads; i++ {
 		rq := GenReadReq(t, dom, m.T, i)
+		// a quarter of the requests are hostile (mutated) requests to the read and
+		// syntax APIs: a malformed request must not write either
+		var hostile *hostileReq
+		if t.Bool(1, 4) {
+			var h hostileReq
+			if t.Bool(1, 2) {
+				h = sys.genHostileREST(t, dom, m.T)
+			} else {
+				h = sys.genHostileGRPC(t, dom, m.T)
+			}
+			if !h.Write {
+				hostile = &h
+				rq = ReadReq{Kind: "hostile-" + h.Transport, Content: h.String()}
+			}
+		}
 		theHub.Arm(0, L2None)
-		resp := sys.DoRead(rq)
+		var resp Resp
+		if hostile != nil {
+			resp = sys.doHostile(*hostile)
+		} else {
+			resp = sys.DoRead(rq)
+		}
 		log, _ := theHub.Disarm()
 		rc.Rec.Execs++
 		entry := fmt.Sprintf("%s -> %s", rq, resp)
+		if len(entry) > 600 {
+			entry = entry[:600] + "..."
+		}
 		hist = append(hist, entry)
 		h = fnv64(entry, h)
 		rc.Count("req_"+rq.Kind, 1)
